@@ -127,6 +127,15 @@ def _attr_hook(interp, v, attr, node, env):
                 ch = opts.get('chunks')
                 if isinstance(ch, (tuple, list)) and any(c == 0 for c in ch):
                     raise A.Raised('ValueError: h5py: chunk shape must not contain 0 (dataset %r of size %s)' % (args[0], _size_of(data)), n, e.get('__rel__'))
+                # an explicit element type for data that is given: the values are converted; exact only when the type holds every value of the data's own C type
+                dt_ = opts.get('dtype')
+                ct_ = getattr(data, 'ctype', None)
+                if data is not None and isinstance(dt_, str) and ct_ is not None:
+                    HOLDS = {'double': ('f8', '<f8', 'float64', 'double', 'd'), 'float': ('f4', '<f4', 'float32', 'f8', '<f8', 'float64', 'double', 'f', 'd'),
+                             'int': ('i4', '<i4', 'int32', 'i8', '<i8', 'int64', 'i', 'l'), 'long': ('i8', '<i8', 'int64', 'l'),
+                             'unsigned int': ('u4', '<u4', 'uint32', 'u8', '<u8', 'uint64', 'i8', '<i8', 'int64')}
+                    if dt_ not in HOLDS.get(ct_, ()):
+                        data = ('converted to %s' % dt_, data)
                 d = H5Node('dataset', data=data, opts=opts)
                 v[args[0]] = d
                 return d
